@@ -114,7 +114,7 @@ func (g *c20Gen) checkFor(class, col string, named bool, name string) string {
 	var e string
 	switch class {
 	case "int", "uint", "float":
-		e = g.pick(col+" > -1000", col+" >= -5 AND "+col+" < 100000000", col+" <> -77")
+		e = g.pick(col+" > -1000", col+" >= -5 AND "+col+" < 100000000", col+" <> -77", col+" <> -77")
 	case "string":
 		e = g.pick("length("+col+") >= 0", col+" <> 'forbidden'", col+" <> 'a,b'")
 	default:
@@ -131,8 +131,17 @@ func (g *c20Gen) scalarField(name string, added bool, ver string) c20Field {
 	kind := c20ScalarKinds[g.rng.Intn(len(c20ScalarKinds))]
 	class := c20Class(kind)
 	var tags []string
-	if g.rng.Intn(6) == 0 {
-		tags = append(tags, "column:c_"+strings.ToLower(name))
+	if g.rng.Intn(3) == 0 { // column name != snake_case(field name): every name derived from the field must use DBName
+		switch g.rng.Intn(4) {
+		case 0:
+			tags = append(tags, "column:c_"+strings.ToLower(name))
+		case 1:
+			tags = append(tags, "column:ext_"+strings.ToLower(name)+"_ref")
+		case 2:
+			tags = append(tags, "column:"+strings.ToLower(name)+"x")
+		case 3:
+			tags = append(tags, "column:Col"+name) // mixed case column
+		}
 		g.f(ver + ":column")
 	}
 	col := c20ColName(name, strings.Join(tags, ";"))
@@ -170,7 +179,7 @@ func (g *c20Gen) scalarField(name string, added bool, ver string) c20Field {
 		tags = append(tags, "unique")
 		g.f(ver + ":unique")
 	}
-	switch g.rng.Intn(9) {
+	switch g.rng.Intn(10) {
 	case 0:
 		tags = append(tags, "index")
 		g.f(ver + ":index")
@@ -182,8 +191,21 @@ func (g *c20Gen) scalarField(name string, added bool, ver string) c20Field {
 	case 2:
 		tags = append(tags, "index:idx_"+strings.ToLower(name)+"_named,sort:desc")
 		g.f(ver + ":index-named")
+	case 4:
+		if class != "bool" && !(added && hasDefault) {
+			u := "uidx_pair"
+			if added {
+				u = "uidx_pair_new"
+			}
+			tags = append(tags, fmt.Sprintf("uniqueIndex:%s,priority:%d", u, 1+g.rng.Intn(3)))
+			g.f(ver + ":uniqueIndex-composite")
+		}
 	case 3:
-		tags = append(tags, fmt.Sprintf("index:idx_comp,priority:%d", 1+g.rng.Intn(4)))
+		comp := "idx_comp"
+		if added { // joining an index name v1 already has would CHANGE that index (left alone by design), not add one
+			comp = "idx_comp_new"
+		}
+		tags = append(tags, fmt.Sprintf("index:%s,priority:%d", comp, 1+g.rng.Intn(4)))
 		g.f(ver + ":index-composite")
 	}
 	if g.rng.Intn(7) == 0 {
@@ -203,7 +225,7 @@ func (g *c20Gen) scalarField(name string, added bool, ver string) c20Field {
 
 func (g *c20Gen) relation(ver string, have map[string]bool, idPK bool) []c20Field {
 	var opts []string
-	for _, k := range []string{"owner", "powner", "org", "audit"} {
+	for _, k := range []string{"owner", "powner", "org", "audit", "stamp"} {
 		if !have[k] && !(k == "powner" && have["owner"]) && !(k == "owner" && have["powner"]) {
 			opts = append(opts, k)
 		}
@@ -236,11 +258,13 @@ func (g *c20Gen) relation(ver string, have map[string]bool, idPK bool) []c20Fiel
 	}
 	switch k {
 	case "owner":
-		return []c20Field{{Name: "OwnerID", Kind: g.pick("uint", "uint", "pint"), Tag: ""}, {Name: "Owner", Kind: "owner", Tag: cons}}
+		return []c20Field{{Name: "OwnerID", Kind: g.pick("uint", "uint", "pint"), Tag: g.pick("", "", "column:own_ref")}, {Name: "Owner", Kind: "owner", Tag: cons}}
 	case "powner":
-		return []c20Field{{Name: "OwnerID", Kind: "uint", Tag: g.pick("", "index")}, {Name: "Owner", Kind: "powner", Tag: cons}}
+		return []c20Field{{Name: "OwnerID", Kind: "uint", Tag: g.pick("", "index", "column:holder;index", "column:OwnRef")}, {Name: "Owner", Kind: "powner", Tag: cons}}
 	case "org":
-		return []c20Field{{Name: "OrgCode", Kind: "string", Tag: g.pick("", "size:20")}, {Name: "Org", Kind: "org", Tag: join("foreignKey:OrgCode;references:Code", cons)}}
+		return []c20Field{{Name: "OrgCode", Kind: "string", Tag: g.pick("", "size:20", "column:org_ref;size:20")}, {Name: "Org", Kind: "org", Tag: join("foreignKey:OrgCode;references:Code", cons)}}
+	case "stamp":
+		return []c20Field{{Name: "Stamp", Kind: "stamp", Tag: g.pick("embedded", "embedded;embeddedPrefix:s_", "embedded;embeddedPrefix:st")}}
 	case "toys":
 		return []c20Field{{Name: "Toys", Kind: "toys", Tag: join("foreignKey:GenID", cons)}}
 	case "badge":
@@ -273,7 +297,7 @@ func c20AddTag(tag, add string) string {
 // genSpec generates one history. tricky=true lets the generator use the spellings covered by listed findings.
 func c20GenSpec(rng *rand.Rand, tricky bool) c20Spec {
 	g := &c20Gen{rng: rng, feat: map[string]bool{}, tricky: tricky}
-	sp := c20Spec{Table: "gen_items", Rows: 1 + rng.Intn(4)}
+	sp := c20Spec{Table: "gen_items", Rows: 2 + rng.Intn(3)}
 	idPK := false
 	switch rng.Intn(8) {
 	case 0, 1, 2:
@@ -309,7 +333,7 @@ func c20GenSpec(rng *rand.Rand, tricky bool) c20Spec {
 	sp.V2 = append([]c20Field(nil), sp.V1...)
 	adds := 1 + rng.Intn(3)
 	for a := 0; a < adds; a++ {
-		switch rng.Intn(7) {
+		switch rng.Intn(9) {
 		case 0, 1:
 			sp.V2 = append(sp.V2, g.scalarField(fmt.Sprintf("N%c", 'A'+a), true, "v2add"))
 			g.f("v2:add-field")
@@ -317,7 +341,7 @@ func c20GenSpec(rng *rand.Rand, tricky bool) c20Spec {
 			for tries := 0; tries < 6; tries++ {
 				i := rng.Intn(len(sp.V1))
 				f := sp.V2[i]
-				if c20IsRel(f.Kind) || f.Kind == "audit" || c20HasTag(f.Tag, "index") || c20HasTag(f.Tag, "uniqueindex") || c20HasTag(f.Tag, "-") {
+				if c20IsRel(f.Kind) || f.Kind == "audit" || f.Kind == "stamp" || c20HasTag(f.Tag, "index") || c20HasTag(f.Tag, "uniqueindex") || c20HasTag(f.Tag, "-") {
 					continue
 				}
 				if f.Kind != "bool" && rng.Intn(2) == 0 {
@@ -333,7 +357,7 @@ func c20GenSpec(rng *rand.Rand, tricky bool) c20Spec {
 			for tries := 0; tries < 6; tries++ {
 				i := rng.Intn(len(sp.V1))
 				f := sp.V2[i]
-				if c20IsRel(f.Kind) || f.Kind == "audit" || c20HasTag(f.Tag, "check") || c20HasTag(f.Tag, "-") {
+				if c20IsRel(f.Kind) || f.Kind == "audit" || f.Kind == "stamp" || c20HasTag(f.Tag, "check") || c20HasTag(f.Tag, "-") {
 					continue
 				}
 				sp.V2[i].Tag = c20AddTag(f.Tag, g.checkFor(c20Class(f.Kind), c20ColName(f.Name, f.Tag), rng.Intn(2) == 0, f.Name))
@@ -344,12 +368,42 @@ func c20GenSpec(rng *rand.Rand, tricky bool) c20Spec {
 			for tries := 0; tries < 6; tries++ {
 				i := rng.Intn(len(sp.V1))
 				f := sp.V2[i]
-				if c20IsRel(f.Kind) || f.Kind == "audit" || f.Kind == "bool" || c20HasTag(f.Tag, "unique") || c20HasTag(f.Tag, "primarykey") || c20HasTag(f.Tag, "-") || f.Name == "ID" {
+				if c20IsRel(f.Kind) || f.Kind == "audit" || f.Kind == "stamp" || f.Kind == "bool" || c20HasTag(f.Tag, "unique") || c20HasTag(f.Tag, "primarykey") || c20HasTag(f.Tag, "-") || f.Name == "ID" {
 					continue
 				}
 				sp.V2[i].Tag = c20AddTag(f.Tag, "unique")
 				g.f("v2:add-unique")
 				break
+			}
+		case 7, 8: // a constraint / index added to an EXISTING field whose column is renamed (name derivations must agree)
+			var cand []int
+			for i, f := range sp.V1 {
+				if !c20IsRel(f.Kind) && f.Kind != "audit" && f.Kind != "stamp" && f.Kind != "bool" && c20HasTag(f.Tag, "column") && !c20HasTag(f.Tag, "primarykey") && f.Name != "ID" {
+					cand = append(cand, i)
+				}
+			}
+			if len(cand) == 0 {
+				sp.V2 = append(sp.V2, g.scalarField(fmt.Sprintf("N%c", 'A'+a), true, "v2add"))
+				g.f("v2:add-field")
+				break
+			}
+			i := cand[rng.Intn(len(cand))]
+			f := sp.V2[i]
+			switch k := rng.Intn(4); {
+			case k == 0 && !c20HasTag(f.Tag, "unique"):
+				sp.V2[i].Tag = c20AddTag(f.Tag, "unique")
+				g.f("v2:add-unique-renamed")
+			case k == 1 && !c20HasTag(f.Tag, "uniqueindex") && !c20HasTag(f.Tag, "index"):
+				sp.V2[i].Tag = c20AddTag(f.Tag, g.pick("uniqueIndex", "index", "uniqueIndex:uidx_ren_"+strings.ToLower(f.Name)))
+				g.f("v2:add-index-renamed")
+			case k == 2 && !c20HasTag(f.Tag, "check"):
+				sp.V2[i].Tag = c20AddTag(f.Tag, g.checkFor(c20Class(f.Kind), c20ColName(f.Name, f.Tag), rng.Intn(2) == 0, f.Name))
+				g.f("v2:add-check-renamed")
+			default:
+				if !c20HasTag(f.Tag, "unique") {
+					sp.V2[i].Tag = c20AddTag(f.Tag, "unique")
+					g.f("v2:add-unique-renamed")
+				}
 			}
 		case 5, 6:
 			if rel := g.relation("v2add", have, idPK); rel != nil {
